@@ -223,7 +223,7 @@ _MOD = None
 def _quiet():
     import logging
 
-    logging.getLogger("pkgcore").setLevel(logging.ERROR)
+    logging.getLogger("pkgcore").setLevel(logging.CRITICAL)
 
 
 def _worker_init(modname):
